@@ -1026,6 +1026,10 @@ func runHistories(r *core.Run, prop string) {
 		}
 	}
 
+	// what the reference pass left in the library's pools (buffers grown to the sizes of this very history) must not
+	// pre-warm the simulated pass: two collections empty every sync.Pool
+	runtime.GC()
+	runtime.GC()
 	// ---- the simulated pass
 	lc, restoreLog := captureLog()
 	defer restoreLog()
